@@ -20,7 +20,7 @@ struct Phases {
 
 fn phases(tier: Tier) -> Phases {
     match tier {
-        Tier::Quick => Phases { in_process: 16_000, cli: 500, processes: 8, repeats: 5 },
+        Tier::Quick => Phases { in_process: 30_000, cli: 800, processes: 8, repeats: 5 },
         Tier::Thorough => Phases { in_process: 400_000, cli: 8_000, processes: 24, repeats: 6 },
     }
 }
